@@ -8,7 +8,7 @@ import tempfile
 
 from hypothesis import strategies as st
 
-from vlib import serial
+from vlib import gen, serial
 from vlib.core import Part
 from vlib.observe import walk
 
@@ -31,7 +31,8 @@ RULE = (
     "formatting choices (indent, key order, maps on/off, clone references on/off, older generator strings) and "
     "load() must return the described tree - from a stream, from a plain file and from a zip archive whose single "
     "member has any name, under any file name, as str or Path - (a third of the cases pass a file_meta dict that already received the "
-    "header of another, compact document); plus the four literal documents of the user guide and generated JSON "
+    "header of another, compact document); plus documents in the guide's mixed layout (plain-string entries next to object entries, loaded by Tree and by "
+    "TypedTree with one mapper that is only asked for the object entries), plus the four literal documents of the user guide and generated JSON "
     "without a valid nutree header, which must be rejected. Non-trivial: document with a clone reference and a dict "
     "entry; distinct = distinct case."
 )
@@ -674,10 +675,76 @@ def mutated_cases(draw, tier):
     return {"spec": spec, "indent": draw(st.sampled_from([None, 1])), "edits": [list(e) for e in draw(st.lists(edit, min_size=1, max_size=4))]}
 
 
+def run_mixed(case, rec):
+    """Documents in the mixed layout of the user guide: plain-string entries next to object entries (dicts that the
+    caller's mapper turns into objects), optionally shortened by header maps; loaded by Tree and by TypedTree with
+    the same mapper.  The mapper is only asked for the object entries."""
+    spec = case["spec"]
+    km = {"type": "t", "name": "n", "age": "a", "data_id": "i"} if case.get("key_map") else {}
+    vm = {"type": ["person", "dept"]} if case.get("value_map") else {}
+    nodes, expect = [], []
+
+    def enc(items, pidx, depth):
+        for label, children in items:
+            idx = len(nodes) + 1
+            if label in serial.PERSON_LABELS:
+                entry = {"type": "person", "name": label, "age": 30 + len(label), "data_id": "p-" + label}
+                if vm:
+                    entry["type"] = vm["type"].index(entry["type"])
+                entry = {km.get(k, k): v for k, v in entry.items()}
+                expect.append((depth, "person", label))
+            else:
+                entry = label
+                expect.append((depth, "str", label))
+            nodes.append([pidx, entry])
+            enc(children, idx, depth + 1)
+
+    enc(spec, 0, 1)
+    meta = {"$generator": "nutree/0.9.1", "$format_version": "1.0"}
+    if km:
+        meta["$key_map"] = km
+    if vm:
+        meta["$value_map"] = vm
+    text = json.dumps({"meta": meta, "nodes": nodes})
+    asked = []
+
+    def mapper(parent, data):
+        asked.append(dict(data))
+        return serial.Person(data["name"], age=data["age"], guid=data["data_id"])
+
+    rec.nt(any(e[1] == "person" for e in expect) and any(e[1] == "str" for e in expect))
+    for cls in (Tree, TypedTree):
+        del asked[:]
+        rec.evals += 1
+        try:
+            t = cls.load(io.StringIO(text), mapper=mapper)
+        except Exception as e:  # noqa: BLE001
+            rec.fail(f"mixed:{cls.__name__}:load-raises:{type(e).__name__}", {"exc": repr(e)[:200], "text": text[:400]})
+            continue
+        w = walk(t)
+        got = [(w.depth[id(n)], "person" if isinstance(n.data, serial.Person) else "str", n.data.name if isinstance(n.data, serial.Person) else n.data) for n in w.pre]
+        if got != expect:
+            rec.fail(f"mixed:{cls.__name__}:tree", {"got": got[:8], "exp": expect[:8]})
+        elif any("name" not in a for a in asked):
+            rec.fail(f"mixed:{cls.__name__}:mapper-asked-for-a-plain-string-entry", asked[:3])
+        elif cls is TypedTree and any(n.kind != TypedTree.DEFAULT_CHILD_TYPE for n in w.pre):
+            rec.fail("mixed:TypedTree:kind", [n.kind for n in w.pre][:6])
+
+
+@st.composite
+def mixed_cases(draw, tier):
+    def plain(nodes):
+        return [[n[0], plain(n[1])] for n in nodes]
+
+    spec = plain(draw(gen.forest_specs(max_nodes=10, max_depth=4, max_width=4, min_nodes=2, unique=False, alphabet=["a", "b", "c", "d", "e", "a1", "ä"])))
+    return {"spec": spec, "key_map": draw(st.booleans()), "value_map": draw(st.booleans())}
+
+
 PARTS = [
     Part("mutated-documents", run_mutated, strategy=lambda tier: mutated_cases(tier), n={"quick": 500, "thorough": 120000}),
     Part("writer", run_writer, strategy=lambda tier: writer_cases(tier), n={"quick": 500, "thorough": 120000}),
     Part("reader", run_reader, strategy=lambda tier: reader_cases(tier), n={"quick": 500, "thorough": 120000}),
     Part("guide-docs", run_guide, enum=guide_cases),
+    Part("mixed-docs", run_mixed, strategy=lambda tier: mixed_cases(tier), n={"quick": 300, "thorough": 20000}),
     Part("malformed", run_malformed, strategy=lambda tier: malformed_cases(tier), n={"quick": 300, "thorough": 10000}),
 ]
